@@ -70,24 +70,24 @@ type Obligation struct {
 	Seconds float64           `json:"seconds"`
 	Model   map[string]string `json:"model,omitempty"`
 	Raw     string            `json:"raw,omitempty"`
-	inputs  []string // constants whose values we want in a model
-	Bytes   int      `json:"smt_bytes"`
+	inputs  []string          // constants whose values we want in a model
+	Bytes   int               `json:"smt_bytes"`
 }
 
 type Ctx struct {
-	fn      string
-	items   []string
-	obls    []*Obligation
-	n       int
-	declared map[string]string // symbol -> sort
-	facts   map[string]bool    // dedupe ground facts
-	inputs  []string
-	notes   map[string]bool // abstraction notes
-	kindCnt map[string]int
-	weak        map[int]bool // items that are only included in the second solving attempt (expensive facts)
+	fn          string
+	items       []string
+	obls        []*Obligation
+	n           int
+	declared    map[string]string // symbol -> sort
+	facts       map[string]bool   // dedupe ground facts
+	inputs      []string
+	notes       map[string]bool // abstraction notes
+	kindCnt     map[string]int
+	weak        map[int]bool    // items that are only included in the second solving attempt (expensive facts)
 	onHavoc     func(st *State) // re-assume rely predicates after unknown code ran
-	inlineDepth int      // >0 while evaluating under a quantifier: no global definitions
-	qfacts      *[]Term  // collects facts while under a quantifier
+	inlineDepth int             // >0 while evaluating under a quantifier: no global definitions
+	qfacts      *[]Term         // collects facts while under a quantifier
 }
 
 func (c *Ctx) assumeRaw(item string) { c.items = append(c.items, item) }
@@ -407,11 +407,105 @@ type solveStats struct {
 	seconds   float64
 }
 
+// batchSolve: stage 0. One incremental z3 process per chunk of obligations (push/pop), without the
+// weak facts, 2 s per check. Only "unsat" answers are used; everything else goes to the per-obligation race.
+func batchSolve(c *Ctx, obls []*Obligation, dir string, stats *solveStats) {
+	const chunk = 24
+	var wg sync.WaitGroup
+	sem := globalSem
+	for i := 0; i < len(obls); i += chunk {
+		j := i + chunk
+		if j > len(obls) {
+			j = len(obls)
+		}
+		part := obls[i:j]
+		wg.Add(1)
+		sem <- struct{}{}
+		go func(part []*Obligation) {
+			defer wg.Done()
+			defer func() { <-sem }()
+			var b bytes.Buffer
+			b.WriteString(prelude)
+			b.WriteString("(set-option :timeout 2000)\n")
+			pos := 0
+			for _, o := range part {
+				if len(o.extra) > 0 {
+					continue
+				}
+				for ; pos < o.prefix; pos++ {
+					if c.weak[pos] {
+						continue
+					}
+					b.WriteString(c.items[pos])
+					b.WriteByte('\n')
+				}
+				b.WriteString("(push)\n(assert (not " + o.goal + "))\n(check-sat)\n(pop)\n")
+			}
+			fileMu.Lock()
+			fileSeq++
+			seq := fileSeq
+			fileMu.Unlock()
+			file := filepath.Join(dir, fmt.Sprintf("b%d.smt2", seq))
+			if err := os.WriteFile(file, b.Bytes(), 0o644); err != nil {
+				return
+			}
+			defer os.Remove(file)
+			t0 := time.Now()
+			ctx, cancel := context.WithTimeout(context.Background(), time.Duration(3*len(part)+10)*time.Second)
+			defer cancel()
+			out, _ := exec.CommandContext(ctx, "z3-new", file).CombinedOutput()
+			secs := time.Since(t0).Seconds()
+			lines := strings.Split(strings.TrimSpace(string(out)), "\n")
+			k := 0
+			n := 0
+			for _, o := range part {
+				if len(o.extra) > 0 {
+					continue
+				}
+				if k >= len(lines) {
+					break
+				}
+				ans := strings.TrimSpace(lines[k])
+				k++
+				if ans != "unsat" && ans != "sat" && ans != "unknown" {
+					// error output desynchronises the answers: stop trusting this chunk
+					break
+				}
+				if ans == "unsat" && !o.MustFail {
+					o.Status, o.Solver = "unsat", "z3-5.1.0 (incremental)"
+					n++
+				}
+			}
+			if stats != nil && n > 0 {
+				stats.mu.Lock()
+				if stats.perSolver == nil {
+					stats.perSolver = map[string]int{}
+				}
+				stats.perSolver["z3-5.1.0 (incremental)"] += n
+				stats.seconds += secs
+				stats.mu.Unlock()
+				for _, o := range part {
+					if o.Status == "unsat" && o.Solver == "z3-5.1.0 (incremental)" {
+						o.Seconds = secs / float64(len(part))
+					}
+				}
+			}
+		}(part)
+	}
+	wg.Wait()
+}
+
+var globalSem = make(chan struct{}, 14)
+
 // solveAll discharges all obligations of a context in parallel.
 func solveAll(c *Ctx, obls []*Obligation, dir string, timeout int, par int, stats *solveStats) {
+	batchSolve(c, obls, dir, stats)
 	var wg sync.WaitGroup
-	sem := make(chan struct{}, par)
+	sem := globalSem
 	for i, o := range obls {
+		if o.Status == "unsat" {
+			continue
+		}
 		wg.Add(1)
 		sem <- struct{}{}
 		go func(i int, o *Obligation) {
@@ -445,6 +539,12 @@ func solveOne(c *Ctx, o *Obligation, dir string, timeout int, stats *solveStats)
 	defer os.Remove(file)
 	defer os.Remove(fileL)
 	bg := context.Background()
+	if o.MustFail {
+		// vacuity guard: only an "unsat" answer matters; a short single attempt on the full script is enough
+		r := runSolver(bg, solvers[0], file, 3)
+		o.Status, o.Solver, o.Seconds = r.status, r.solver, r.secs
+		return
+	}
 	// stage 1: fast attempt with the newest z3, without the expensive (weak) facts
 	quick := 2
 	if timeout < quick {
@@ -517,7 +617,7 @@ func solveOne(c *Ctx, o *Obligation, dir string, timeout int, stats *solveStats)
 		if stats.perSolver == nil {
 			stats.perSolver = map[string]int{}
 		}
-		if r.status == "unsat" {
+		if r.status == "unsat" && !o.MustFail {
 			stats.perSolver[r.solver]++
 		}
 		stats.seconds += total
